@@ -96,12 +96,12 @@ func containerIntrinsics(m map[string]Intrinsic) {
 	for _, T := range []string{"Uint64Map", "StringMap", "Int32Map", "Int64Map", "IntMap", "Uint32Map"} {
 		pre := "(*" + sm + T + ")."
 		m[pre+"Store"] = func(r *run, fr *frame, args []Value) Value {
-			r.yield("skipmap.Store", nil)
+			r.yieldOn("skipmap.Store", []any{smap(args[0])}, nil)
 			r.mapStore(smap(args[0]), args[1], copyVal(args[2]))
 			return nil
 		}
 		m[pre+"Load"] = func(r *run, fr *frame, args []Value) Value {
-			r.yield("skipmap.Load", nil)
+			r.yieldOn("skipmap.Load", []any{smap(args[0])}, nil)
 			mm := smap(args[0])
 			if i := r.mapFind(mm, args[1]); i >= 0 {
 				return Tuple{copyVal(mm.Vals[i]), term.True}
@@ -109,7 +109,7 @@ func containerIntrinsics(m map[string]Intrinsic) {
 			return Tuple{zero(r.resultType(0)), term.False}
 		}
 		m[pre+"LoadAndDelete"] = func(r *run, fr *frame, args []Value) Value {
-			r.yield("skipmap.LoadAndDelete", nil)
+			r.yieldOn("skipmap.LoadAndDelete", []any{smap(args[0])}, nil)
 			mm := smap(args[0])
 			if i := r.mapFind(mm, args[1]); i >= 0 {
 				v := mm.Vals[i]
@@ -120,7 +120,7 @@ func containerIntrinsics(m map[string]Intrinsic) {
 			return Tuple{zero(r.resultType(0)), term.False}
 		}
 		m[pre+"Delete"] = func(r *run, fr *frame, args []Value) Value {
-			r.yield("skipmap.Delete", nil)
+			r.yieldOn("skipmap.Delete", []any{smap(args[0])}, nil)
 			mm := smap(args[0])
 			if i := r.mapFind(mm, args[1]); i >= 0 {
 				mm.Keys = append(append([]Value{}, mm.Keys[:i]...), mm.Keys[i+1:]...)
@@ -130,7 +130,7 @@ func containerIntrinsics(m map[string]Intrinsic) {
 			return term.False
 		}
 		m[pre+"LoadOrStore"] = func(r *run, fr *frame, args []Value) Value {
-			r.yield("skipmap.LoadOrStore", nil)
+			r.yieldOn("skipmap.LoadOrStore", []any{smap(args[0])}, nil)
 			mm := smap(args[0])
 			if i := r.mapFind(mm, args[1]); i >= 0 {
 				return Tuple{copyVal(mm.Vals[i]), term.True}
@@ -140,7 +140,7 @@ func containerIntrinsics(m map[string]Intrinsic) {
 			return Tuple{copyVal(args[2]), term.False}
 		}
 		m[pre+"LoadOrStoreLazy"] = func(r *run, fr *frame, args []Value) Value {
-			r.yield("skipmap.LoadOrStoreLazy", nil)
+			r.yieldOn("skipmap.LoadOrStoreLazy", []any{smap(args[0])}, nil)
 			mm := smap(args[0])
 			if i := r.mapFind(mm, args[1]); i >= 0 {
 				return Tuple{copyVal(mm.Vals[i]), term.True}
@@ -152,11 +152,11 @@ func containerIntrinsics(m map[string]Intrinsic) {
 			return Tuple{copyVal(v), term.False}
 		}
 		m[pre+"Len"] = func(r *run, fr *frame, args []Value) Value {
-			r.yield("skipmap.Len", nil)
+			r.yieldOn("skipmap.Len", []any{smap(args[0])}, nil)
 			return term.Const(64, uint64(len(smap(args[0]).Keys)))
 		}
 		m[pre+"Range"] = func(r *run, fr *frame, args []Value) Value {
-			r.yield("skipmap.Range", nil)
+			r.yieldOn("skipmap.Range", []any{smap(args[0])}, nil)
 			mm := smap(args[0])
 			keys := append([]Value{}, mm.Keys...)
 			vals := append([]Value{}, mm.Vals...)
@@ -175,7 +175,7 @@ func containerIntrinsics(m map[string]Intrinsic) {
 	m[ss+"NewString"] = newMap
 	pre := "(*" + ss + "StringSet)."
 	m[pre+"Add"] = func(r *run, fr *frame, args []Value) Value {
-		r.yield("skipset.Add", nil)
+		r.yieldOn("skipset.Add", []any{smap(args[0])}, nil)
 		mm := smap(args[0])
 		if i := r.mapFind(mm, args[1]); i >= 0 {
 			return term.False
@@ -185,7 +185,7 @@ func containerIntrinsics(m map[string]Intrinsic) {
 		return term.True
 	}
 	m[pre+"Remove"] = func(r *run, fr *frame, args []Value) Value {
-		r.yield("skipset.Remove", nil)
+		r.yieldOn("skipset.Remove", []any{smap(args[0])}, nil)
 		mm := smap(args[0])
 		if i := r.mapFind(mm, args[1]); i >= 0 {
 			mm.Keys = append(append([]Value{}, mm.Keys[:i]...), mm.Keys[i+1:]...)
@@ -195,15 +195,15 @@ func containerIntrinsics(m map[string]Intrinsic) {
 		return term.False
 	}
 	m[pre+"Contains"] = func(r *run, fr *frame, args []Value) Value {
-		r.yield("skipset.Contains", nil)
+		r.yieldOn("skipset.Contains", []any{smap(args[0])}, nil)
 		return term.Bool(r.mapFind(smap(args[0]), args[1]) >= 0)
 	}
 	m[pre+"Len"] = func(r *run, fr *frame, args []Value) Value {
-		r.yield("skipset.Len", nil)
+		r.yieldOn("skipset.Len", []any{smap(args[0])}, nil)
 		return term.Const(64, uint64(len(smap(args[0]).Keys)))
 	}
 	m[pre+"Range"] = func(r *run, fr *frame, args []Value) Value {
-		r.yield("skipset.Range", nil)
+		r.yieldOn("skipset.Range", []any{smap(args[0])}, nil)
 		mm := smap(args[0])
 		keys := append([]Value{}, mm.Keys...)
 		snap := &Map{KT: mm.KT, Keys: keys, Vals: make([]Value, len(keys))}
@@ -234,12 +234,12 @@ func containerIntrinsics(m map[string]Intrinsic) {
 		return mm
 	}
 	m["(*sync.Map).Store"] = func(r *run, fr *frame, args []Value) Value {
-		r.yield("sync.Map.Store", nil)
+		r.yieldOn("sync.Map.Store", []any{syncMap(r, args[0])}, nil)
 		r.mapStore(syncMap(r, args[0]), args[1], args[2])
 		return nil
 	}
 	m["(*sync.Map).Load"] = func(r *run, fr *frame, args []Value) Value {
-		r.yield("sync.Map.Load", nil)
+		r.yieldOn("sync.Map.Load", []any{syncMap(r, args[0])}, nil)
 		mm := syncMap(r, args[0])
 		if i := r.mapFind(mm, args[1]); i >= 0 {
 			return Tuple{mm.Vals[i], term.True}
@@ -247,7 +247,7 @@ func containerIntrinsics(m map[string]Intrinsic) {
 		return Tuple{Iface{}, term.False}
 	}
 	m["(*sync.Map).LoadOrStore"] = func(r *run, fr *frame, args []Value) Value {
-		r.yield("sync.Map.LoadOrStore", nil)
+		r.yieldOn("sync.Map.LoadOrStore", []any{syncMap(r, args[0])}, nil)
 		mm := syncMap(r, args[0])
 		if i := r.mapFind(mm, args[1]); i >= 0 {
 			return Tuple{mm.Vals[i], term.True}
@@ -257,7 +257,7 @@ func containerIntrinsics(m map[string]Intrinsic) {
 		return Tuple{args[2], term.False}
 	}
 	m["(*sync.Map).LoadAndDelete"] = func(r *run, fr *frame, args []Value) Value {
-		r.yield("sync.Map.LoadAndDelete", nil)
+		r.yieldOn("sync.Map.LoadAndDelete", []any{syncMap(r, args[0])}, nil)
 		mm := syncMap(r, args[0])
 		if i := r.mapFind(mm, args[1]); i >= 0 {
 			v := mm.Vals[i]
@@ -268,12 +268,12 @@ func containerIntrinsics(m map[string]Intrinsic) {
 		return Tuple{Iface{}, term.False}
 	}
 	m["(*sync.Map).Delete"] = func(r *run, fr *frame, args []Value) Value {
-		r.yield("sync.Map.Delete", nil)
+		r.yieldOn("sync.Map.Delete", []any{syncMap(r, args[0])}, nil)
 		r.mapDelete(syncMap(r, args[0]), args[1])
 		return nil
 	}
 	m["(*sync.Map).Range"] = func(r *run, fr *frame, args []Value) Value {
-		r.yield("sync.Map.Range", nil)
+		r.yieldOn("sync.Map.Range", []any{syncMap(r, args[0])}, nil)
 		mm := syncMap(r, args[0])
 		keys := append([]Value{}, mm.Keys...)
 		vals := append([]Value{}, mm.Vals...)
